@@ -68,7 +68,7 @@ func (g *g17) header() string {
 		}
 		return 0
 	}
-	return fmt.Sprintf("svc=%d peer=%d wiring=%s idle=%d ttlro=%d ttlrw=%d bt=10000", b2(g.svc), b2(g.peer), g.wiring, g.idle, g.ttlro, g.ttlrw)
+	return fmt.Sprintf("svc=%d peer=%d wiring=%s idle=%d ttlro=%d ttlrw=%d", b2(g.svc), b2(g.peer), g.wiring, g.idle, g.ttlro, g.ttlrw)
 }
 
 func (g *g17) emit(f string, a ...interface{}) { g.lines = append(g.lines, fmt.Sprintf(f, a...)) }
